@@ -1372,7 +1372,7 @@ def v11(e: Engine, rep: Report, g, w, ctx, where):
     defs = common.reaching_defs(g, w, pth)
     rep.ok('V11', where, '%d assignment(s) of `%s` reach the wrapped call'
            % (len([d for d in defs if d is not None]), nm),
-           reason='each is the parser\'s result or the invalid address',
+           reason='judged one by one',
            loc=w.loc())
     for d in defs:
         if d is None or not isinstance(d.ast, ast.Assign):
